@@ -114,6 +114,17 @@ def make_pool(seed: int, big: bool = False) -> list[bytes]:
     if big:
         pool.append((b'compressible ' * 6000)[:70001])
         pool.append(rnd.randbytes(66000))
+    # contents that already are in a compressed format (the typical incompressible payload): real gzip/zlib/bz2/lzma streams and the
+    # signatures of zip, png, jpeg, zstd, 7z in front of noise; appended last so that the indices of older corpus cases keep their meaning
+    import bz2
+    import gzip
+    import lzma
+    pool.append(gzip.compress(b'payload ' * rnd.randint(1, 40), mtime=0))
+    pool.append(zlib.compress(b'zz' * rnd.randint(1, 30)))
+    pool.append(rnd.choice([bz2.compress(b'bz' * 20), lzma.compress(b'xz' * 20)]))
+    pool.append(rnd.choice([b'PK\x03\x04', b'\x89PNG\r\n\x1a\n', b'\xff\xd8\xff\xe0', b'\x28\xb5\x2f\xfd', b"7z\xbc\xaf'\x1c"]) + rnd.randbytes(rnd.choice([0, 3, 40])))
+    if big:
+        pool.append(gzip.compress(rnd.randbytes(3000), mtime=0)[:2500] + rnd.randbytes(1500))
     return list(dict.fromkeys(pool))
 
 
